@@ -1,10 +1,9 @@
 SPECIFICATION Spec
 CONSTANTS
   L0 = 6
-  MaxDepth = 4
+  MaxDepth = 12
   Record = FALSE
   Dev <- DevNone
-VIEW view
 INVARIANT TypeOK
 INVARIANT RecordSoundInv
 INVARIANT RecordInRangeInv
